@@ -3,8 +3,11 @@ C06 — Farm: rewards are conserved and paid pro rata to stake and time.
 
 Statements over the model's ghost counters (used by `Props/C06.lean`) and the monitor that
 re-derives the same quantities from consecutive observations of the real implementation:
-budget identity, release = per-block × span iff someone is staked, refund exactly once,
-budget solvency, collector ledger, and the exact-rational fairness reference.
+budget identity, release = per-block × span iff someone is staked (the release an operation
+has to make is computed from the observed pre-state, not from the implementation's own
+distribution height), refund exactly once, budget solvency, collector ledger, and the exact-
+rational fairness reference (accrued block by block from the observed stakes, rates and
+start/end heights, independently of the implementation's accumulator).
 -/
 import Irismod.Spec.C05
 
